@@ -60,7 +60,7 @@ Binary == {"AND", "CONTAINS", "EQ", "GE", "GT", "IN", "LE", "LG", "LT", "NE", "O
 OpOf(kind) == CASE kind = "AND" -> "&&" [] kind = "OR" -> "||" [] kind = "CONTAINS" -> "contains" [] kind = "IN" -> "in"
                 [] kind = "EQ" -> "==" [] kind = "NE" -> "!=" [] kind = "LG" -> "<>" [] kind = "LT" -> "<" [] kind = "LE" -> "<="
                 [] kind = "GT" -> ">" [] kind = "GE" -> ">=" [] kind = "RE" -> "=~"
-ComparisonOps == {"==", ">=", ">", "<=", "<", "!=", "=~"}
+ComparisonOps == {"==", ">=", ">", "<=", "<", "!=", "<>", "=~"}
 LiteralOps == ComparisonOps \cup {"<>", "in", "contains"}
 
 \* ---- the function registry (the five typed standard functions) ------------------------------
